@@ -1252,8 +1252,10 @@ DTDScanner::scanChildren(const DTDElementDecl& elemDecl, XMLBuffer& bufToUse, un
                         try {
                             subNode = scanChildren(elemDecl, bufToUse, subDepth);
                         }
-                        catch (const XMLErrs::Codes)
+                        catch (...)
                         {
+                            // Not only XMLErrs::Codes: an exception thrown by the
+                            // application's error handler passes through here too.
                             delete headNode;
                             throw;
                         }
